@@ -238,7 +238,8 @@ def abs_c14(w, sess, frames, t0, hs_len, res):
         if r["k"] == "recv" and not r["raw"] and r.get("dns"):
             n += 1
             tun = r["cls"]["kind"] in ("ping", "data")
-            evs.append({"e": "Recv", "n": n, "src": r["src"], "id": r["id"], "qn": r["qn"], "qt": r["qt"],
+            holder = "%s#%s" % (r["src"], r["cls"].get("uid")) if tun else r["src"]
+            evs.append({"e": "Recv", "n": n, "src": r["src"], "holder": holder, "id": r["id"], "qn": r["qn"], "qt": r["qt"],
                         "tun": tun, "lk": wire.qn_str([l.lower() for l in r["labels"]])})
         elif r["k"] == "send" and not r["raw"]:
             pl = r.get("payload")
